@@ -36,6 +36,17 @@ from gotranx.schemes import get_scheme
 import gotranx
 
 
+def foreign_names(names):
+    """unknown names next to known ones: a known name extended, and a proper prefix of a known name"""
+    out = []
+    if names:
+        out.append(names[0] + "x")
+        out.append(names[-1] + "_")
+        if len(names[-1]) > 1:
+            out.append(names[-1][:-1])
+    return [x for x in out if x not in names]
+
+
 def value_of(drv, ex):
     r = drv.ask(["evalclosed", [lang.to_sx(ex)]])
     return core.hexf(r["values"][0])
@@ -72,7 +83,7 @@ def check_model(rep, drv, gen, rng, m, text, c, with_jax, with_c):
             if issue is None and got != list(range(len(names))):
                 fail(f"{kind}_index differs from the slot table the generated functions use", remove_unused=ru,
                      table=names, got=got)
-            for foreign in ["__nope__", "X" + (names[0] if names else "q"), ""]:
+            for foreign in ["__nope__", "X" + (names[0] if names else "q"), ""] + foreign_names(names):
                 if foreign in names:
                     continue
                 try:
@@ -270,8 +281,9 @@ def check_model(rep, drv, gen, rng, m, text, c, with_jax, with_c):
                         got = [cm.index(f"{kind}_index", x) for x in names]
                         if got != list(range(len(names))):
                             fail(f"C {kind}_index: {dict(zip(names, got))}", backend="C")
-                        if cm.index(f"{kind}_index", "__nope__") != -1:
-                            fail(f"C {kind}_index accepts an unknown name", backend="C")
+                        for foreign in ["__nope__"] + foreign_names(names):
+                            if foreign not in names and cm.index(f"{kind}_index", foreign) != -1:
+                                fail(f"C {kind}_index accepts the unknown name {foreign!r}", backend="C")
                     for cname, want in (("NUM_STATES", len(lay["sorted_states"])), ("NUM_PARAMS", len(lay["params"])),
                                         ("NUM_MONITORED", len(lay["order"]))):
                         if cm.constant(cname) != want:
@@ -323,7 +335,7 @@ def main(argv=None):
     return rep.finish(
         level="proof",
         rule="random accepted models (every 6th with 11-13 states); non-trivial = more than two declared names; per model: "
-             "remove_unused off/on x (index functions incl. foreign names, init functions incl. overrides and unknown keyword, "
+             "remove_unused off/on x (index functions incl. foreign names - unknown, a known name extended, a proper prefix of a known name -, init functions incl. overrides and unknown keyword, "
              "validators, slots of rhs/monitor_values/3 schemes at 2 points), 6 rhs + 6 monitor + 24 Euler + 6 RL argument orders "
              "called positionally; jax on every 6th model and on every big one, C (gcc) on every 3rd",
         trusted_base=["Coq 8.16.1 kernel", "extraction + ocaml/driver.ml", "harness skeleton exporter", "gcc, ctypes, jax as executors"],
